@@ -27,7 +27,7 @@ def run(ck):
     for m in MUTS:
         ck.mc_must_fail("MCFdIO", "C20_asfound_%s.cfg" % m, workers=4, timeout=600)
     exe = vlib.build("san", vlib.harness_sources(), "vh")
-    n = 4000 if thorough else 600
+    n = 20000 if thorough else 600
     tp = os.path.join(ck.dir, "v.ndjson")
     deaths = vlib.run_executions(exe, lambda st: ["c20", "drive", st, n], n, tp, timeout=1200)
     vlib.conformance(ck, "V:scripted-short-transfers-and-errors", "TraceFdIO", "trace.cfg", tp, deaths, diag_of, min_events=n, timeout=1800,
